@@ -554,7 +554,8 @@ def len_interval(c, v=True):
 def strip_ndarray(t):
     """x.to_numpy(), x.values, np.array(x), np.asarray(x) hold the same numbers in the same order as x"""
     def f(z):
-        if z[0] == 'call' and z[1] in (('meth', 'to_numpy'), ('ext', 'ARRAY'), ('ext', 'numpy.asarray'), ('meth', 'tolist'), ('meth', 'to_list')) and len(z[2]) == 1 and not z[3]:
+        if z[0] == 'call' and z[1] in (('meth', 'to_numpy'), ('ext', 'ARRAY'), ('ext', 'numpy.asarray'), ('meth', 'tolist'), ('meth', 'to_list')) and len(z[2]) == 1 and \
+                all(k in ('dtype', 'copy') and (k == 'copy' or v in (('ext', 'FLOAT'), ('str', 'float'), ('str', 'float64'), ('ext', 'numpy.float64'))) for k, v in z[3]):
             return z[2][0]
         if z[0] == 'attr' and z[2] == 'values':
             return z[1]
